@@ -538,7 +538,6 @@ func c19FaultThenRead(r *rt.Rec, rng *rand.Rand, n int) {
 	}
 }
 
-
 // ---------------------------------------------------------------------------
 // (d) key confusion: within one cache generation (no write) every lookup method
 // is called with arguments that carry the same identifiers in different roles
